@@ -17,6 +17,13 @@ Acts(s) ==
     \cup {[name |-> "MintFrom", minter |-> "bob", to |-> "carol", amt |-> 1, auth |-> au] : au \in Auths}
     \* the owner named as minter through the public mint_from
     \cup {[name |-> "MintFrom", minter |-> s.owner, to |-> "carol", amt |-> 1, auth |-> au] : au \in Auths}
+    \* the declared administrator claw-back: debits an account without its authorisation, so it must not succeed
+    \cup {[name |-> "Clawback", from |-> "alice", amt |-> m, auth |-> au] : m \in {0, 1}, au \in {{}, {s.owner}, {"bob"}}}
+    \* aliased parties: the spender is the debited account itself, or the recipient
+    \cup {[name |-> "TransferFrom", spender |-> "alice", from |-> "alice", to |-> "bob", amt |-> m, auth |-> au] : m \in {0, 1}, au \in {{}, {"alice"}, {"bob"}}}
+    \cup {[name |-> "BurnFrom", spender |-> "alice", from |-> "alice", amt |-> m, auth |-> au] : m \in {0, 1}, au \in {{}, {"alice"}}}
+    \cup {[name |-> "TransferFrom", spender |-> "carol", from |-> "alice", to |-> "carol", amt |-> 0, auth |-> au] : au \in {{}, {"alice"}, {"carol"}}}
+    \cup {[name |-> "Approve", from |-> "alice", spender |-> "alice", amt |-> 1, exp |-> s.seq + 5, auth |-> au] : au \in {{}, {"alice"}, {"bob"}}}
     \* the token contract's own address named as the debited party by an outside caller
     \cup {[name |-> "Transfer", from |-> "token", to |-> "bob", amt |-> 0, auth |-> au] : au \in {{}, {"mallory"}}}
     \cup {[name |-> "Approve", from |-> "token", spender |-> "bob", amt |-> 1, exp |-> s.seq + 5, auth |-> au] : au \in {{}, {"mallory"}}}
@@ -26,11 +33,11 @@ Init == st = Blank("its0", "its0", 1)
 EnabledActs(s) == {a \in Acts(s) : Within(Apply(s, a).post)}
 Next == \E a \in EnabledActs(st) : st' = Apply(st, a).post
 Step(P(_, _, _)) == \A a \in EnabledActs(st) : P(st, a, Apply(st, a))
-NamedOf(a) == CASE a.name \in {"Approve", "Transfer", "Burn"} -> a.from
+NamedOf(a) == CASE a.name \in {"Approve", "Transfer", "Burn", "Clawback"} -> a.from
                 [] a.name \in {"TransferFrom", "BurnFrom"} -> a.spender
                 [] a.name = "MintFrom" -> a.minter
                 [] OTHER -> "nobody"
-Spending(a) == a.name \in {"Approve", "Transfer", "Burn", "TransferFrom", "BurnFrom", "MintFrom"}
+Spending(a) == a.name \in {"Clawback", "Approve", "Transfer", "Burn", "TransferFrom", "BurnFrom", "MintFrom"}
 Named(s, a, r) == (Spending(a) /\ r.ok) => NamedOf(a) \in a.auth
 Frame(s, a, r) == ~r.ok => r.post = s /\ r.ev = <<>>
 C07_Named == Step(Named)
